@@ -375,7 +375,13 @@ func c16StaleFeeProbe(c *fw.Ctx, e *Env, g *Gen, wrk bool, oldFee uint64, denom 
 	c.Count("stale_fee_probes", 1)
 	chk := e.L.Check(bz)
 	if chk.Code != 0 {
-		return
+		// the same transaction may already have been waiting in the mempool (admitted while its fee was
+		// the one in force): the re-check every node runs after a commit must evict it as well
+		if rc := e.L.Recheck(bz); rc.Code != 0 {
+			return
+		}
+		what += "; admitted by the mempool RE-CHECK"
+		c.Count("stale_fee_rechecks_admitted", 1)
 	}
 	e.BeginBlock(time.Second)
 	resp := e.DeliverRaw(&TxPlan{Spec: spec, Desc: "stale-fee probe " + descMsgs(spec.Msgs)}, bz)
